@@ -648,6 +648,139 @@ func c18(c *Ctx) {
 		}
 	}
 
+	// a memoised result is keyed by everything it was computed from
+	{
+		collT := lookupType(px.Pkg, "collector")
+		nMemo := 0
+		for _, f := range sortedFuncs(px.Funcs) {
+			if f.Body() == nil || f.Recv() == nil || collT == nil || namedOf(f.Recv().Type()) == nil || namedOf(f.Recv().Type()).Obj() != collT.Obj() {
+				continue
+			}
+			g := px.FG(f)
+			params := map[types.Object]bool{}
+			sg := f.Obj.Type().(*types.Signature).Params()
+			for i := 0; i < sg.Len(); i++ {
+				params[sg.At(i)] = true
+			}
+			mentionsParams := func(e ast.Expr, depth int) map[types.Object]bool { return nil }
+			mentionsParams = func(e ast.Expr, depth int) map[types.Object]bool {
+				out := map[types.Object]bool{}
+				ast.Inspect(e, func(n ast.Node) bool {
+					if id, ok := n.(*ast.Ident); ok {
+						o := info.Uses[id]
+						if params[o] {
+							out[o] = true
+						} else if d := g.LocalDef(o); d != nil && depth < 3 {
+							for k := range mentionsParams(d, depth+1) {
+								out[k] = true
+							}
+						}
+					}
+					return true
+				})
+				return out
+			}
+			inspectNoLit(f.Body(), func(nd ast.Node) bool {
+				as, ok := nd.(*ast.AssignStmt)
+				if !ok || len(as.Lhs) != 1 || len(as.Rhs) != 1 {
+					return true
+				}
+				ie, ok := unparen(as.Lhs[0]).(*ast.IndexExpr)
+				if !ok {
+					return true
+				}
+				fv, b := fieldOf(info, ie.X)
+				if fv == nil || b == nil || !sameVar(info, b, f.Recv()) {
+					return true
+				}
+				if _, isMap := fv.Type().Underlying().(*types.Map); !isMap {
+					return true
+				}
+				// the stored value: a call, or a local defined / last assigned from a call in this function
+				var call *ast.CallExpr
+				v := unparen(as.Rhs[0])
+				if cl, isC := v.(*ast.CallExpr); isC {
+					call = cl
+				} else if o := objOf(info, v); o != nil {
+					inspectNoLit(f.Body(), func(m ast.Node) bool {
+						if a2, isAs := m.(*ast.AssignStmt); isAs && len(a2.Lhs) == len(a2.Rhs) {
+							for i, l := range a2.Lhs {
+								if objOf(info, l) == o {
+									if cl, isC := unparen(a2.Rhs[i]).(*ast.CallExpr); isC {
+										call = cl
+									}
+								}
+							}
+						}
+						return true
+					})
+				}
+				// … or, when the computation is written out (or was expanded) in the miss branch: every parameter that branch reads
+				var missBody *ast.BlockStmt
+				if call == nil || px.declByObj(callee(info, call)) == nil {
+					call = nil
+					ast.Inspect(f.Body(), func(m ast.Node) bool {
+						if is, isIf := m.(*ast.IfStmt); isIf && containsNoLit(is.Body, as) {
+							missBody = is.Body // innermost wins: Inspect visits outer first
+						}
+						return true
+					})
+					if missBody == nil {
+						return true
+					}
+				}
+				// is this a memo (the same map is read with the same key in this function)?
+				read := false
+				inspectNoLit(f.Body(), func(m ast.Node) bool {
+					if i2, isI := m.(*ast.IndexExpr); isI && i2 != ie {
+						if f2, _ := fieldOf(info, i2.X); f2 == fv {
+							read = true
+						}
+					}
+					return true
+				})
+				if !read {
+					return true
+				}
+				nMemo++
+				inKey := mentionsParams(ie.Index, 0)
+				missingSet := map[string]bool{}
+				what := "the computation in the miss branch"
+				if call != nil {
+					what = exprStr(call.Fun)
+					for _, a := range call.Args {
+						for o := range mentionsParams(a, 0) {
+							if !inKey[o] {
+								missingSet[o.Name()] = true
+							}
+						}
+					}
+				} else {
+					for _, st := range missBody.List {
+						if st == ast.Stmt(as) {
+							continue
+						}
+						ast.Inspect(st, func(m ast.Node) bool {
+							if id, isID := m.(*ast.Ident); isID && params[info.Uses[id]] && !inKey[info.Uses[id]] {
+								missingSet[id.Name] = true
+							}
+							return true
+						})
+					}
+				}
+				var missing []string
+				for k := range missingSet {
+					missing = append(missing, k)
+				}
+				sort.Strings(missing)
+				c.Check(len(missing) == 0, "R4", "prometheus|"+f.Name+"|the memo in "+fv.Name()+" is keyed by everything the memoised computation reads", at(px.M, as.Pos()), exprStr(ie.Index)+" covers the inputs of "+what,
+					"the cached result of "+what+" depends on "+joinStr(missing)+", which the key "+exprStr(ie.Index)+" leaves out: the first caller's value is handed to callers with another "+joinStr(missing)+" (a counter and a gauge of one name get the same Prometheus name and one of them is dropped as a type conflict)")
+				return true
+			})
+		}
+		_ = nMemo
+	}
+
 	c.Rule("R7", "E3 per-iteration reset", "in Collect, a label buffer (keyVals) that is appended to inside the per-scope loop is either created inside that loop or emptied on every path from the start of an iteration to the append: labels of one scope never pile up on the next", 2)
 	if fn := c.Fn(px, "R7", "(*collector).Collect"); fn != nil {
 		g := px.FG(fn)
